@@ -70,7 +70,10 @@ class MalformedRoutines(Exception):
     """The op lists are not something the machine can run (dangling jump target, missing jump parameter)."""
 
 
-def machine(routine_ops: list[list[Any]], target_index: str = "last") -> tuple[dict[Hashable, Node], list[Hashable]]:
+CTX_OPS = ("lives", "object", "performer")
+
+
+def machine(routine_ops: list[list[Any]], target_index: str = "last", ctx_continues: bool = False) -> tuple[dict[Hashable, Node], list[Hashable]]:
     """LTS of compiled (label-free) SSB routines. Returns (nodes, entry node id per routine).
 
     Node ids are ('o', offset) and ('end', routine index) for running off the end of routine r.
@@ -78,6 +81,10 @@ def machine(routine_ops: list[list[Any]], target_index: str = "last") -> tuple[d
     applies: compiler output always has it as the last parameter (target_index="last", the default); binary-reader
     input as the decompiler reads it has it at the table's index (target_index="table"). For ops with the documented
     parameter count both coincide.
+
+    ctx_continues (refinement used by C01, see props/C01.py "Context ops"): a flow-ending op that directly follows a context
+    op (lives / object / performer) is run in the context of that actor / object / performer - it is performed, and the routine
+    itself goes on with the next op.
     """
     nodes: dict[Hashable, Node] = {}
     entries: list[Hashable] = []
@@ -109,7 +116,8 @@ def machine(routine_ops: list[list[Any]], target_index: str = "last") -> tuple[d
                     nodes[("o", op.offset)] = Node("test", label, (("o", tgt), nxt))
             else:
                 label = (name, tuple(param_key(p) for p in params))
-                if name in STOP_OPS:
+                in_ctx = ctx_continues and i > 0 and r[i - 1].op_code.name in CTX_OPS
+                if name in STOP_OPS and not in_ctx:
                     nodes[("o", op.offset)] = Node("stop", label, ())
                 else:
                     nodes[("o", op.offset)] = Node("op", label, (nxt,))
